@@ -19,12 +19,12 @@ def process_level(res, tier):
     if vlib.deep(tier):
         pats.update({"seven-buckets-six-bunches": [1e-3, 2e-3, 0, 1e-3, 5e-4, 1e-3, 2e-3], "eight-equal": [1e-3] * 8})
     # (RF model, interpolation points, Fokker-Planck variant)
-    variants = [("linear", 4, 3), ("sin", 3, 3), ("linear", 3, 0), ("sin", 4, 1), ("linear", 2, 2)] if vlib.wide(tier) else [("linear", 4, 3), ("sin", 3, 0)]
+    variants = [("linear", 4, 3), ("sin", 3, 3), ("linear", 3, 0), ("sin", 4, 1), ("linear", 2, 2), ("linear-clamped", 4, 3), ("sin-clamped", 4, 0)] if vlib.wide(tier) else [("linear", 4, 3), ("sin", 3, 0)]
     jobs = [(k, rf, it, fp) for k in pats for rf, it, fp in variants]
 
     def do(j):
         k, rf, it, fp = j
-        a = base + ["--LinearRF", "true" if rf == "linear" else "false", "--InterpolationPoints", it, "--FPType", fp, "-I"] + pats[k]
+        a = base + ["--LinearRF", "true" if rf.startswith("linear") else "false", "--InterpolateClamped", "true" if rf.endswith("clamped") else "false", "--InterpolationPoints", it, "--FPType", fp, "-I"] + pats[k]
         r = pl.run(exe, a, wd, out="o_%s_%s_%d.h5" % (k, rf, fp), timeout=600)
         doc = pl.h5(r["h5"], maxv=100000) if r["rc"] == 0 else None
         return j, r, doc
